@@ -478,8 +478,10 @@ def dump_one(f: TextIO, data: IOData):
     # write electronic spin multiplicity and model (both optional)
     if data.spinpol is not None:
         _write_xml_single(tag=lbs["spin_multi"], info=int(data.spinpol + 1), file=f)
-    if data.lot is not None:
-        _write_xml_single(tag=lbs["model_name"], info=data.lot, file=f)
+    # The reader stores the model in extra["model_name"]: write it back when lot is not set.
+    model_name = data.lot if data.lot is not None else data.extra.get("model_name")
+    if model_name is not None:
+        _write_xml_single(tag=lbs["model_name"], info=model_name, file=f)
 
     # write primitive centers
     prim_centers = [shell.icenter + 1 for shell in obasis.shells for _ in range(shell.nbasis)]
